@@ -156,3 +156,32 @@ def binding_table(prog):
             tab.setdefault((b.owner, b.name), b)
         _cache[k] = tab
     return _cache[k]
+
+
+def engine_call_args(prog, call, name=None):
+    """The arguments of a Python call of an engine function (`_C.<name>(...)`), bound to the
+    parameter names of its pybind11 binding: {parameter name: ast expression}, whether the caller
+    passed them by position or by keyword.  None when the call cannot be bound (unknown function,
+    star arguments, more positional arguments than parameters)."""
+    import ast as _ast
+    if name is None:
+        f = call.func
+        if not isinstance(f, _ast.Attribute):
+            return None
+        name = f.attr
+    b = binding_table(prog).get(('module', name))
+    if b is None:
+        return None
+    names = [a[0] for a in b.args]
+    if any(isinstance(a, _ast.Starred) for a in call.args) or any(k.arg is None for k in call.keywords):
+        return None
+    if len(call.args) > len(names):
+        return None
+    out = {}
+    for n, a in zip(names, call.args):
+        out[n] = a
+    for k in call.keywords:
+        if k.arg in out:
+            return None
+        out[k.arg] = k.value
+    return out
